@@ -20,6 +20,8 @@ pub struct GenOpts {
     pub undeclared: bool,
     pub functions: bool,
     pub rnd: bool,
+    /// make INPUT frequent and place it in THEN / ELSE / loops / subroutines
+    pub input_boost: bool,
 }
 
 impl Default for GenOpts {
@@ -33,6 +35,7 @@ impl Default for GenOpts {
             undeclared: true,
             functions: true,
             rnd: true,
+            input_boost: false,
         }
     }
 }
@@ -340,6 +343,9 @@ impl<'r> G<'r> {
     }
 
     fn simple_stmt(&mut self) -> Stmt {
+        if self.opts.inputs && self.opts.input_boost && self.rng.chance(1, 4) {
+            return self.input_stmt();
+        }
         match self.rng.below(20) {
             0..=6 => self.print_stmt(),
             7..=12 => self.let_stmt(),
@@ -355,6 +361,14 @@ impl<'r> G<'r> {
     }
 
     /// a statement usable as THEN/ELSE branch (no IF, no FOR)
+    fn branch_stmt_in(&mut self, allow_input: bool) -> Stmt {
+        if allow_input && self.opts.inputs && self.rng.chance(if self.opts.input_boost { 2 } else { 1 }, 6) {
+            self.feat("INPUT-in-branch");
+            return self.input_stmt();
+        }
+        self.branch_stmt()
+    }
+
     fn branch_stmt(&mut self) -> Stmt {
         match self.rng.below(12) {
             0..=4 => self.print_stmt(),
@@ -453,7 +467,7 @@ impl<'r> G<'r> {
         match self.rng.below(12) {
             0..=2 => {
                 // IF c THEN s [: t]
-                let then = Branch::Stmt(Box::new(self.branch_stmt()));
+                let then = Branch::Stmt(Box::new(self.branch_stmt_in(true)));
                 line.push(Stmt::If { cond, then, els: None });
                 if self.rng.coin() {
                     line.push(self.simple_stmt());
@@ -463,7 +477,7 @@ impl<'r> G<'r> {
             3..=5 => {
                 self.feat("IF-ELSE");
                 let then = Branch::Stmt(Box::new(self.branch_stmt()));
-                let els = Some(Branch::Stmt(Box::new(self.branch_stmt())));
+                let els = Some(Branch::Stmt(Box::new(self.branch_stmt_in(true))));
                 line.push(Stmt::If { cond, then, els });
                 if self.rng.coin() {
                     line.push(self.simple_stmt());
@@ -940,8 +954,9 @@ pub fn generate(rng: &mut Rng, opts: &GenOpts) -> Generated {
         prog.lines.push(Line { number: numbers[i], stmts });
     }
     g.out.prog = prog;
-    if g.out.replies.is_empty() {
-        g.out.replies.push("0".into());
+    if !g.out.replies.iter().any(|r| crate::model::prog::plain_decimal(r.trim()).is_some()) {
+        // every pending INPUT is eventually satisfied by a plain number
+        g.out.replies.push("5".into());
     }
     g.out
 }
